@@ -207,6 +207,9 @@ def make_image(rng, cls, shp, C, dtype, mask_kind, constant=None):
     for g in range(int(rng.integers(0, 3))):
         s = gen.shape(rng, None, d=len(shp), n=int(rng.integers(3, 7)))
         s.points = rng.uniform(0, 1, s.points.shape) * (np.array(shp) - 1)
+        if rng.random() < 0.25:
+            # pixel positions kept as whole numbers (integer-typed landmarks are ordinary landmarks)
+            s.points = np.round(s.points).astype([np.int64, np.uint16, np.int32][rng.integers(0, 3)])
         im.landmarks["g%d" % g] = s
     return im
 
@@ -361,7 +364,12 @@ def w_normalisers(ctx, rng, i):
         zero = s == 0
     exc, r = None, None
     try:
-        r = f(x, **kwargs)
+        if rng.random() < 0.4:
+            # the options given positionally, in the documented order
+            r = f(x, custom, mode, err) if fname == "normalize" else f(x, mode, err)
+            ctx.bump("normaliser_options_given_positionally")
+        else:
+            r = f(x, **kwargs)
     except Exception as e:
         exc = e
     tol = 1e-9 if dtype == np.float64 else 2e-4
